@@ -87,7 +87,7 @@ CHECKS.update({
               "64 KiB counter violated it). Tie: boarddiff runs 1-4 writers on separate handles (goroutines; OS processes for every 4th history) with sizes "
               "up to just under 1 MiB, feeds the observed file to the Lean model as the linearisation and compares every offset and every GetMessages answer. "
               "Eighth session (monitors on the real code, outside the model, which has no lines that are not messages): odd-line histories - a tail torn by a writer that died in the middle of an append, a complete line that does not decode, a line that spells out only some fields, each between sends: every message sent afterwards "
-              "stands on a line of its own at the position its offset names and is read back as sent (fixes 58eae51, e963d09); mention histories - entries that quote the id of an ignored entry in their round id, event, sender or recipient, and an empty string on the id ignore list."),
+              "stands on a line of its own at the position its offset names and is read back as sent (fixes 58eae51, e963d09); mention histories - entries that quote the id of an ignored entry in their round id, event, sender or recipient, and an empty string on the id ignore list. Model/BoardLines.lean + Props/C16Lines.lean: the data file with lines that are no messages (torn tail, undecodable line) - offset_eq_position_lines, append_only_lines, send_adds_one_message, read_from_own_offset for EVERY history of sends, dying writers and foreign lines; the torn-tail and garbage-line histories are a second stream compared with the compiled model (driver mode boardlines)."),
         ref='7 C16',
         note=("Trusted: flock(2) exclusion between open file descriptions, O_APPEND single-write appends, bufio.Scanner limit semantics (a line is delivered iff "
               "len+1 <= limit), the translator reading the two limits. Messages of 1 MiB or more are outside the property (the reader refuses them) and are not sent by the driver.")),
